@@ -426,6 +426,13 @@ func init() {
 	reg("(time.Time).IsZero", func(m *M, fn *ssa.Function, a []Value, r ssa.Value) Value {
 		return smt.Eq(tns(a[0]), smt.BVC(64, 0))
 	})
+	reg("(time.Time).Format|(time.Time).String|(time.Time).GoString", func(m *M, fn *ssa.Function, a []Value, r ssa.Value) Value {
+		m.st.NextObj++
+		return strC(fmt.Sprintf("<time-text#%d>", m.st.NextObj))
+	})
+	reg("(time.Time).UTC|(time.Time).Local|(time.Time).Round|(time.Time).Truncate", func(m *M, fn *ssa.Function, a []Value, r ssa.Value) Value {
+		return a[0]
+	})
 	reg("(time.Time).UnixNano", func(m *M, fn *ssa.Function, a []Value, r ssa.Value) Value { return tns(a[0]) })
 	reg("(time.Time).Unix", func(m *M, fn *ssa.Function, a []Value, r ssa.Value) Value {
 		return smt.BVSDiv(tns(a[0]), smt.BVC(64, 1000000000))
